@@ -197,6 +197,8 @@ def rules_for(pid):
             ("HOOK-STORE", lambda c: RO.hook_store(c.P, c.E, ("observer::", "internals::stream_controller::")), 2),
             # start_with re-checks the subscriber after its last prefix item before it subscribes the source
             ("D-compose2-start_with", lambda c: _only(ROPS.compose_rule(c.P, c.E, c.H), ("operators::start_with::StartWith",)), 1),
+            # amb's losers are cut when they next show themselves
+            ("AMB", lambda c: ROPS.amb_rule(c.P, c.E, c.H), 1),
         ],
         "C07": [
             ("L1", lambda c: RL.l1_reentrancy(c.P, c.E, c.H), 19),
